@@ -34,5 +34,67 @@ void h_parse_statistics(void) {
   parquet_statistics_t *st = nondet_ptr();
   parse_statistics(dec, arena, st);
   CQV_CANARY("parse_statistics returns");
-  if (dec->status == CARQUET_OK) CQV_CANARY("parse_statistics can succeed");
+}
+
+void h_parse_logical_type(void) {
+  thrift_decoder_t *dec = nondet_ptr();
+  carquet_logical_type_t *lt = nondet_ptr();
+  parse_logical_type(dec, lt);
+  CQV_CANARY("parse_logical_type returns");
+}
+
+void h_parse_schema_element(void) {
+  thrift_decoder_t *dec = nondet_ptr();
+  carquet_arena_t *arena = nondet_ptr();
+  parquet_schema_element_t *e = nondet_ptr();
+  parse_schema_element(dec, arena, e);
+  CQV_CANARY("parse_schema_element returns");
+}
+
+void h_parse_column_metadata(void) {
+  thrift_decoder_t *dec = nondet_ptr();
+  carquet_arena_t *arena = nondet_ptr();
+  parquet_column_metadata_t *m = nondet_ptr();
+  parse_column_metadata(dec, arena, m);
+  CQV_CANARY("parse_column_metadata returns");
+}
+
+void h_parse_column_chunk(void) {
+  thrift_decoder_t *dec = nondet_ptr();
+  carquet_arena_t *arena = nondet_ptr();
+  parquet_column_chunk_t *c = nondet_ptr();
+  parse_column_chunk(dec, arena, c);
+  CQV_CANARY("parse_column_chunk returns");
+}
+
+void h_parse_row_group(void) {
+  thrift_decoder_t *dec = nondet_ptr();
+  carquet_arena_t *arena = nondet_ptr();
+  parquet_row_group_t *rg = nondet_ptr();
+  parse_row_group(dec, arena, rg);
+  CQV_CANARY("parse_row_group returns");
+}
+
+void h_parse_file_metadata(void) {
+  const uint8_t *data = nondet_ptr();
+  size_t size = nondet_size_t();
+  carquet_arena_t *arena = nondet_ptr();
+  parquet_file_metadata_t *md = nondet_ptr();
+  carquet_error_t *err = nondet_ptr();
+  carquet_status_t st = parquet_parse_file_metadata(data, size, arena, md, err);
+  CQV_CANARY("parquet_parse_file_metadata returns");
+  if (st == CARQUET_OK) CQV_CANARY("parquet_parse_file_metadata can succeed");
+  if (st != CARQUET_OK) CQV_CANARY("parquet_parse_file_metadata can fail");
+}
+
+void h_parse_page_header(void) {
+  const uint8_t *data = nondet_ptr();
+  size_t size = nondet_size_t();
+  parquet_page_header_t *h = nondet_ptr();
+  size_t *br = nondet_ptr();
+  carquet_error_t *err = nondet_ptr();
+  carquet_status_t st = parquet_parse_page_header(data, size, h, br, err);
+  CQV_CANARY("parquet_parse_page_header returns");
+  if (st == CARQUET_OK) CQV_CANARY("parquet_parse_page_header can succeed");
+  if (st != CARQUET_OK) CQV_CANARY("parquet_parse_page_header can fail");
 }
